@@ -124,8 +124,9 @@ class Equation(object):
             if term.IsBlob:
                 raise LogicError('Cannot add a blob to non-empty equation')
         for other in self.TermList:
-            if term.Term == other.Term:
+            if term.Term == other.Term and not other.IsBlob:
                 # Already exists; just add the constants together.
+                # (Never merge into a blob: its constant is not rendered.)
                 other.Constant += term.Constant
                 return
         # Otherwise, append
